@@ -302,6 +302,9 @@ func run() int {
 				}
 			}
 		}
+		if *flagMaxPaths == 0 && tier == "thorough" {
+			*flagMaxPaths = 5_000_000
+		}
 		cfg := sym.Config{Prog: ld.prog, Harness: fn, Scope: "github.com/Azbesciak/RealDecisionMaker/", Mode: hs.Mode, Tier: tier, Workers: *flagWorkers,
 			KnownKF: knownActive, MaxPaths: *flagMaxPaths, KeepScripts: cross, NoMerge: *flagNoMerge, Deadline: time.Now().Add(budget)}
 		if v := hs.Opts["ob_timeout_ms"]; v != "" {
